@@ -13,7 +13,8 @@ meta := {'unique_together': [[f,..],..], 'index_together': [[f,..],..],
          'db_table': str|None}
 qspec := ['gt'|'gte'|'lt'|'exact'|'isnull', field, value] | ['and'|'or', q, q]
          | ['not', q]
-Every model has the implicit AutoField primary key ``id``.
+Every model has the implicit AutoField primary key ``id`` unless a field
+carries 'primary_key': True (only in hand-built cases: C11 mode 'pk').
 """
 import copy
 import json
@@ -62,7 +63,7 @@ def field_kwargs(fdef):
     kind = fdef['kind']
     kw = {}
     for a in ('null', 'db_index', 'unique', 'db_column', 'max_length',
-              'max_digits', 'decimal_places'):
+              'max_digits', 'decimal_places', 'primary_key'):
         if fdef.get(a) is not None:
             kw[a] = fdef[a]
     if kind in REL_KINDS:
